@@ -19,9 +19,11 @@ func init() {
 					Rename: map[string]string{"IssuerFromContext()": "reqIssuer", "NewIDTokenHintVerifier()": "Hand.newIDTokenHintVerifier"}},
 				{File: "pkg/op/session.go", Name: "ValidateEndSessionPostLogoutRedirectURI", Lean: "ValidateEndSessionPostLogoutRedirectURI",
 					Params: []string{"(o : SessOracles)", "(postLogoutRedirectURI : String)", "(client : OPClient)"}, Ret: RetErr, PlainUpdate: true, LoopStyle: "forFirst",
+					AutoCtx: []string{"(o : SessOracles)"},
 					Rename: map[string]string{"path.Match()": "(o).pathMatch"}},
 				{File: "pkg/op/session.go", Name: "ValidateEndSessionRequest", Lean: "ValidateEndSessionRequest",
 					Params: []string{"(o : SessOracles)", "(req : EndSessionReq)", "(ender : SessionEnder)"}, Ret: RetValErr, PlainUpdate: true, LoopStyle: "forFirst", RetType: "EndSessionRequest",
+					AutoCtx: []string{"(o : SessOracles)"},
 					SoftErr: map[string]string{"IDTokenHintExpiredError": "Hand.hintClaims"},
 					Rename: map[string]string{"VerifyIDTokenHint()": "Hand.viaToken (o).tokenOf (VerifyIDTokenHint now)", "url.Parse()": "(o).urlParse",
 						"ValidateEndSessionPostLogoutRedirectURI()": "ValidateEndSessionPostLogoutRedirectURI now o"}},
